@@ -77,6 +77,9 @@ def run(ctx):
     fam = {k: c for k, c in c04.family(ctx).items() if c.name == "SupervisedSimulation"}
     c04.r1_iterator_escape(ctx, fam, rule="C14.R6", only={"SupervisedSimulation"})
     ctx.rules["C14.R6"] = "the example source kept by SupervisedSimulation is re-iterable (every read yields every example again)"
+    r7_reward_definitions(ctx, fn)
+    r8_reader_rows(ctx)
+    r9_label_key_domain(ctx)
 
 
 def _final_loops(fn):
@@ -188,7 +191,116 @@ def r5_take(ctx, init):
     ctx.ob("C14.R5", SUP, "SupervisedSimulation.read", rd, "read() starts from self._source.read()", ok, stmt="read source")
 
 
+PRIM = "coba/primitives.py"
+RDR = "coba/pipes/readers.py"
+
+
+def r7_reward_definitions(ctx, fn):
+    ctx.rule("C14.R7", "multi-label reward is the Jaccard overlap |chosen & true| / |chosen | true| with |A|B| = |A|+|B|-|A&B| counted against the true label "
+                       "set; in the generic classification arm only a list-valued cell is unwrapped to its single label (a tuple is a label in its own right)")
+    call = ctx.fn(PRIM, "HammingReward.__call__")
+    rets = [x for x in walk_shallow(call) if isinstance(x, ast.Assign) and isinstance(x.value, ast.BinOp) and isinstance(x.value.op, ast.Div)]
+    ctx.floor("C14.R7", "quotient in HammingReward.__call__", len(rets), 1)
+    q = rets[0].value
+    num, den = unparse(q.left), q.right
+    den_e = assigned_value(call, den.id)[0] if isinstance(den, ast.Name) and assigned_value(call, den.id) else den
+    true_names = {"self._argmax"} | {t.id for x in walk_shallow(call) if isinstance(x, ast.Assign) and unparse(x.value) == "self._argmax" for t in x.targets if isinstance(t, ast.Name)}
+    # |A|+|B|-n  in any order of the two lens
+    okd = False
+    if isinstance(den_e, ast.BinOp) and isinstance(den_e.op, ast.Sub) and unparse(den_e.right) == num and isinstance(den_e.left, ast.BinOp) and isinstance(den_e.left.op, ast.Add):
+        lens = [den_e.left.left, den_e.left.right]
+        if all(isinstance(l, ast.Call) and call_name(l) == "len" and len(l.args) == 1 for l in lens):
+            subj = {unparse(l.args[0]) for l in lens}
+            okd = len(subj) == 2 and len(subj & true_names) == 1
+    if isinstance(den_e, ast.Call) and call_name(den_e) == "len" and any(isinstance(x, ast.BinOp) and isinstance(x.op, ast.BitOr) for x in ast.walk(den_e)):
+        okd = True
+    ctx.ob("C14.R7", PRIM, "HammingReward.__call__", rets[0], "the denominator is the size of the union: len(true) + len(chosen) - intersection", okd, detail={"denominator": unparse(den_e)}, stmt="jaccard denominator")
+    incs = [x for x in ast.walk(call) if isinstance(x, ast.AugAssign) and unparse(x.target) == num and isinstance(x.op, ast.Add)]
+    oki = bool(incs) and all(isinstance(i.value, ast.Compare) and isinstance(i.value.ops[0], ast.In) and unparse(i.value.comparators[0]) in true_names for i in incs)
+    loop_ok = all(any(isinstance(a, ast.For) and unparse(a.target) == unparse(i.value.left) for a in ancestors(i)) for i in incs) if oki else False
+    ctx.ob("C14.R7", PRIM, "HammingReward.__call__", incs[0] if incs else call, "the numerator counts the chosen labels that are in the true label set", oki and loop_ok, stmt="jaccard numerator")
+    # delist
+    dl = [v for v in assigned_value(fn, "delist")] or [x.value for x in ast.walk(fn) if isinstance(x, ast.Assign) and isinstance(x.value, ast.Lambda) and "[0]" in unparse(x.value)]
+    ctx.floor("C14.R7", "single-label unwrapping in the generic classification arm", len(dl), 1)
+    for v in dl:
+        tests = [c for c in ast.walk(v) if isinstance(c, ast.Call) and call_name(c) == "isinstance"]
+        ok = len(tests) == 1 and unparse(tests[0].args[1]) == "list"
+        ctx.ob("C14.R7", SUP, "SupervisedSimulation.read", v, "only a list-valued label cell is unwrapped to its element (tuples, strings, numbers are labels as they are)", ok,
+               detail={"test": unparse(tests[0]) if tests else None}, stmt="delist type")
+
+
+def r8_reader_rows(ctx):
+    ctx.rule("C14.R8", "LibsvmReader yields one (features, labels) example for every labelled line: the yield is guarded by the label test alone "
+                       "(a line whose first token is empty or a feature), never by the features; ManikReader only skips the meta line")
+    fn = ctx.fn(RDR, "LibsvmReader.filter")
+    ys = [y for y in walk_shallow(fn) if isinstance(y, ast.Yield)]
+    ctx.floor("C14.R8", "yields in LibsvmReader.filter", len(ys), 1)
+    for y in ys:
+        conj = []
+        for t, pol in guards_of(y, fn):
+            parts = t.values if isinstance(t, ast.BoolOp) and isinstance(t.op, ast.And) and pol else [t]
+            conj += [(p_, pol) for p_ in parts]
+
+        def about_label(e):
+            if isinstance(e, ast.UnaryOp) and isinstance(e.op, ast.Not):
+                return about_label(e.operand)
+            if isinstance(e, ast.Name):
+                vs = assigned_value(fn, e.id)
+                return bool(vs) and all(about_label(v) for v in vs)
+            if isinstance(e, ast.BoolOp):
+                return all(about_label(v) for v in e.values)
+            if isinstance(e, ast.Compare) and len(e.ops) == 1:
+                txt = unparse(e)
+                return (isinstance(e.ops[0], ast.In) and const_str(e.left) == ":") or (isinstance(e.ops[0], (ast.Eq, ast.NotEq)) and "''" in txt)
+            return False
+        bad = [unparse(c) for c, _ in conj if not about_label(c)]
+        ctx.ob("C14.R8", RDR, "LibsvmReader.filter", y, "the example is yielded whenever the line has a label (no further condition)", bool(conj) and not bad,
+               detail={"guards": [unparse(c) for c, _ in conj], "not about the label": bad})
+    lp = [x for x in walk_shallow(fn) if isinstance(x, ast.For)]
+    ok = len(lp) == 1 and unparse(lp[0].iter) in ("filter(None, lines)", "lines")
+    ctx.ob("C14.R8", RDR, "LibsvmReader.filter", lp[0] if lp else fn, "every non-empty line is considered, in order", ok, stmt="line loop")
+    mk = ctx.fn(RDR, "ManikReader.filter")
+    rets = [r for r in walk_shallow(mk) if isinstance(r, ast.Return)]
+    ok = len(rets) == 1 and unparse(rets[0].value) == "LibsvmReader().filter(islice(lines, 1, None))"
+    ctx.ob("C14.R8", RDR, "ManikReader.filter", rets[0] if rets else mk, "Manik data is the LibSVM body after exactly one meta line", ok, stmt="manik skip")
+
+
+ROWS = "coba/pipes/rows.py"
+
+
+def r9_label_key_domain(ctx):
+    """LabelSparse reads the label with row[key] and removes it with DropSparse(row, {key}), which compares `key` against row.keys().
+    Both agree only if every key row[...] accepts is a key row.keys() reports."""
+    ctx.rule("C14.R9", "the label is removed from the features by the same key it is read with: for the sparse row classes LabelSparse can wrap, "
+                       "__getitem__ accepts only keys from the domain keys() reports (no pass-through of raw column indexes next to header names)")
+    n = 0
+    for c in ctx.model.subclasses(ctx.model.cls("coba/primitives.py", "Sparse_")):
+        if c.rel != ROWS or "keys" not in c.methods or "__getitem__" not in c.methods:
+            continue
+        keys_fn, gi = c.methods["keys"], c.methods["__getitem__"]
+        translated_out = [x for x in ast.walk(keys_fn) if isinstance(x, ast.Attribute) and is_self_attr(x) and x.attr in ("_inv",)]
+        if not translated_out:
+            continue
+        n += 1
+        ctx.touch(ROWS, f"{c.name}.__getitem__")
+        passthrough = [k for k in ast.walk(gi) if isinstance(k, ast.Call) and call_tail(k) == "get" and len(k.args) == 2 and unparse(k.args[0]) == unparse(k.args[1])
+                       and is_self_attr(k.func.value)]
+        ctx.ob("C14.R9", ROWS, f"{c.name}.__getitem__", passthrough[0] if passthrough else gi,
+               "a key outside the reported (header-name) domain is not silently looked up as a raw column index", not passthrough,
+               detail={"keys() translates with": [unparse(x) for x in translated_out][:1], "pass-through": [unparse(k) for k in passthrough]})
+    ctx.floor("C14.R9", "sparse row classes whose keys() translates raw keys to header names", n, 1)
+    ls = ctx.model.cls(ROWS, "LabelSparse")
+    for prop in ("feats", "labeled"):
+        f = ls.methods[prop]
+        drops = [k for k in walk_shallow(f) if isinstance(k, ast.Call) and call_name(k) == "DropSparse"]
+        ok = len(drops) == 1 and unparse(drops[0].args[1]) == "{self._key}" and unparse(drops[0].args[0]) == "self._row"
+        ctx.ob("C14.R9", ROWS, f"LabelSparse.{prop}", drops[0] if drops else f, "the features are the row without exactly the label key", ok, stmt=f"LabelSparse.{prop} drop")
+
+
 CONTROLS = [
+    ("union taken as the larger set", PRIM, M.replace_expr("HammingReward.__call__", "len(argmax) + len(comparable) - n_intersect", "max(len(argmax), len(comparable))"), "C14.R7"),
+    ("tuple labels unwrapped", SUP, M.replace_expr("SupervisedSimulation.read", "isinstance(l, list)", "isinstance(l, (list, tuple))"), "C14.R7"),
+    ("label-only lines dropped", RDR, M.replace_expr("LibsvmReader.filter", "not no_label_line", "len(items) > 1 and (not no_label_line)"), "C14.R8"),
     ("actions from first 100 rows", SUP, M.replace_expr("SupervisedSimulation.read", "[r.label for r in rows]", "[r.label for r in rows[:100]]"), "C14.R3"),
     ("label as context", SUP, M.replace_expr("SupervisedSimulation.read", "row[0]", "row[1]"), "C14.R2"),
     ("skip rows", SUP, M.replace_stmt("SupervisedSimulation.read", M.simple_has("yield {'context': row.feats"), "if row.label is not None:\n    yield {'context': row.feats, 'actions': actions, 'rewards': reward(row.label)}"), "C14.R1"),
